@@ -25,17 +25,20 @@ def _apply(root, v):
     if not os.path.exists(path):
         return None
     src = open(path, encoding="utf-8").read()
-    n = src.count(v["find"])
-    if n == 0:
-        return None
-    if n > 1 and not v.get("all"):
-        idx = v.get("nth", 0)
-        pos = -1
-        for _ in range(idx + 1):
-            pos = src.find(v["find"], pos + 1)
-        new = src[:pos] + v["replace"] + src[pos + len(v["find"]):]
-    else:
-        new = src.replace(v["find"], v["replace"])
+    edits = v.get("edits") or [(v["find"], v["replace"])]
+    new = src
+    for find, replace in edits:
+        n = new.count(find)
+        if n == 0:
+            return None
+        if n > 1 and not v.get("all"):
+            idx = v.get("nth", 0)
+            pos = -1
+            for _ in range(idx + 1):
+                pos = new.find(find, pos + 1)
+            new = new[:pos] + replace + new[pos + len(find):]
+        else:
+            new = new.replace(find, replace)
     try:
         compile(new, path, "exec")  # the variant must still be a valid program
     except SyntaxError:
